@@ -119,7 +119,13 @@ def spans_of(relfile):
     """items of a repo file (cached per process)"""
     if relfile in _span_cache:
         return _span_cache[relfile]
-    if relfile.startswith("@registry/"):
+    if relfile.startswith("@ffi/"):
+        # the oo-bindgen output of the CURRENT tree: regenerated by tools/gen_ffi.sh (cargo check -p rodbus-ffi) on every run
+        import glob
+        hits = sorted(glob.glob(os.path.join(os.environ.get("VERIF_FFI_TARGET", os.path.join(VERIF, "build", "ffi-target")),
+                                             "debug", "build", "rodbus-ffi-*", "out", relfile[len("@ffi/"):])), key=os.path.getmtime)
+        path = hits[-1] if hits else relfile
+    elif relfile.startswith("@registry/"):
         # a dependency's source, verbatim from the offline cargo registry (version pinned by Cargo.lock)
         import glob
         hits = sorted(glob.glob(os.path.expanduser("~/.cargo/registry/src/*/" + relfile[len("@registry/"):])))
